@@ -152,7 +152,10 @@ fn cut_points(text: &str, mode: u64) -> Vec<u32> {
 }
 
 pub fn gen_gz(rng: &mut Rng) -> Gz {
-    if rng.chance(1, 2) {
+    if rng.chance(1, 8) {
+        let n = rng.range(1, 3);
+        Gz::Multi { cuts: (0..n).map(|_| rng.below(1001) as u16).collect(), level: rng.below(10) as u32 }
+    } else if rng.chance(1, 2) {
         Gz::Flate(rng.below(10) as u32)
     } else {
         Gz::Stored { block: *rng.pick(&[1u16, 7, 64, 500, 65535]), fname: rng.chance(1, 2), fcomment: rng.chance(1, 4), fextra: rng.chance(1, 4), fhcrc: rng.chance(1, 4) }
@@ -485,7 +488,7 @@ impl Prop for C17 {
     }
 
     fn rule(&self) -> String {
-        "one run = (abstract LP/MIP model with <=6 columns and <=5 rows: E/L/G rows, RHS, RANGES of either sign, integer markers, every BOUNDS type, objective constant, sense absent/inline/own line; layout variant: 3/5-field lines, comments, blank lines, blanks/tabs, number styles, CRLF, section variants; container: plain, flate2 level 0-9 or independent stored-block gzip with optional header fields; entry point: load_raw_reader / load_zipped_reader on a simulated stream or load_file on the simulated disk; schedule: chunking incl. cuts at line ends, inside number tokens, inside the gzip header/trailer; faults: EINTR, short reads, EIO at byte k or call j, open failure, one flipped container bit; or one one-token corruption). Enumerated part: EIO at every byte offset 0..=len of N files; every single flipped bit of the container of M gzip files. distinct = distinct event-log hash; non-trivial = the model has a column, or a fault fired".into()
+        "one run = (abstract LP/MIP model with <=6 columns and <=5 rows: E/L/G rows, RHS, RANGES of either sign, integer markers, every BOUNDS type, objective constant, sense absent/inline/own line; layout variant: 3/5-field lines, comments, blank lines, blanks/tabs, number styles, CRLF, section variants; container: plain, flate2 level 0-9, independent stored-block gzip with optional header fields, or a series of 2-4 gzip members cut anywhere in the text; entry point: load_raw_reader / load_zipped_reader on a simulated stream or load_file on the simulated disk; schedule: chunking incl. cuts at line ends, inside number tokens, inside the gzip header/trailer; faults: EINTR, short reads, EIO at byte k or call j, open failure, one flipped container bit; or one one-token corruption). Enumerated part: EIO at every byte offset 0..=len of N files; every single flipped bit of the container of M gzip files. distinct = distinct event-log hash; non-trivial = the model has a column, or a fault fired".into()
     }
     fn assumptions(&self) -> Vec<String> {
         vec![
